@@ -44,6 +44,14 @@ RULE = ("11 classes x (3 derivative identities + inverse identity + reference en
 PAIRS = (("deriv_inverse", "deriv"), ("deriv2_inverse", "deriv2"), ("deriv3_inverse", "deriv3"))
 
 
+def _has_comprehension(t):
+    if isinstance(t, tuple):
+        if t and t[0] == "comp":
+            return True
+        return any(_has_comprehension(x) for x in t)
+    return False
+
+
 def rule_r1(rep, repo):
     base = repo.cls("BaseTransform")
     inv = repo.cls("InverseRTransform")
@@ -81,6 +89,11 @@ def rule_r1(rep, repo):
             # differently factored but the same Laurent polynomial in (d1, d2, d3): same function
             rep.ok("R1.inverse-formulas-agree", f"{bm}~InverseRTransform.{im}", fa.loc(),
                    "equal after expansion to the normal form " + e5.show_poly(e5.laurent(A.ret), 120))
+        elif _has_comprehension(A.ret) or _has_comprehension(gb):
+            # a value graph keeps a comprehension as one un-evaluated node (`[f(x) for f in (self.deriv, ...)[:k]]`): the two
+            # graphs cannot be compared term by term, and a difference found there says nothing about the formulas
+            raise AnalysisError(f"cannot compare BaseTransform.{bm} with InverseRTransform.{im}: the derivatives are produced by a "
+                                f"comprehension the value graph does not unfold")
         else:
             rep.violation(
                 "R1.inverse-formulas-agree", f"rtransform.BaseTransform.{bm}", f"InverseRTransform.{im}",
